@@ -179,7 +179,7 @@ def run(rep):
         for k, v in r['hist'].items(): hist[k] = hist.get(k, 0) + v
     rep.cov.update(evaluations=n, distinct_nontrivial=len(finals),
                    rule='one adapter per sequence (zcReader / zcWriter / ioReader / ioWriter over a LinkBuffer / ioWriter over zcWriter) behind a scripted source or sink (per-call counts 0..>4KB, negative, data with error, short writes; '
-                        'one reader sequence in three over a long stream with rare Release); the io.Writer caller overwrites its slice after every Write; zero-copy results of the reader are re-compared until Release (poisoning allocator); '
+                        'one reader sequence in four over a long stream with rare Release); the io.Writer caller overwrites its slice after every Write; zero-copy results of the reader are re-compared until Release (poisoning allocator); '
                         'random Reader/Writer calls; every reply compared with the Lean adapter model and judged by a stream oracle; distinct_nontrivial = distinct final reply lines',
                    samples=results[0]['samples'], op_histogram=hist, traces_validated_against_impl=n)
     rep.assumptions += ['C01 refinement: inside Contract a LinkBuffer behaves as the spec queue (checked by ./check C01)',
